@@ -390,3 +390,7 @@ mod tests {
         assert_eq!(expected, result);
     }
 }
+
+#[cfg(kani)]
+#[path = "/verif/kani/arrow-arith/bitwise.rs"]
+mod verif_kani;
